@@ -8,7 +8,7 @@ CONSTANTS
   DoneT = 7
   MaxUpd = 1
   MaxBad = 0
-  MaxLocal = 1
+  MaxLocal = 2
   MaxInbound = 1
   MaxTime = 660
   UseFourth = FALSE
